@@ -61,7 +61,7 @@ class AttackGraphNode:
         if self.mitre_info is not None:
             node_dict['mitre_info'] = str(self.mitre_info)
         if self.tags:
-            node_dict['tags'] = str(self.tags)
+            node_dict['tags'] = list(self.tags)
         if self.extras:
             node_dict['extras'] = self.extras
 
